@@ -8,6 +8,10 @@
 
        | R_p(z/n)^n - exp z |  <=  ( |z|^(p+1) * exp |z| / (p+1)! ) / n^p     for every n >= 1.
 
+    model_conv_EF / model_conv_RK2 / model_conv_RK4 transport this to the model itself: n steps of
+    Tracker.rk_generic (rk_iter) on the linear field u = lam*x + mu with dtdx = T/n, against the exact
+    end point (x0 + mu/lam) * exp (lam*T) - mu/lam.
+
     Uses only the axioms of the standard-library reals plus what Coquelicot's Taylor_Lagrange pulls in
     (classical logic, functional extensionality); see the Print Assumptions at the end. *)
 From Coq Require Import Reals Lra Lia Psatz QArith Qreals.
@@ -326,7 +330,6 @@ Section ModelConvergence.
   Qed.
 End ModelConvergence.
 
-Check model_conv_RK4.
 Print Assumptions conv_order.
 Print Assumptions conv_EF.
 Print Assumptions conv_RK2.
